@@ -6,4 +6,318 @@ import PolyVerif.Model.Nodes
 namespace PolyVerif.Nodes
 variable {V : Type}
 
+/-! ### basics -/
+
+@[simp] theorem Graph.set_same (g : Graph V) (i : Nat) (n : Node V) : (g.set i n) i = n := by
+  simp [Graph.set]
+
+theorem Graph.set_ne (g : Graph V) {i j : Nat} (n : Node V) (h : j ≠ i) : (g.set i n) j = g j := by
+  simp [Graph.set, h]
+
+/-- same parameter data / same processor and wiring: everything `evalSpec` looks at -/
+def StaticEq (a b : Node V) : Prop :=
+  match a, b with
+  | .param x v, .param y w => x = y ∧ v = w
+  | .struct s, .struct t => s.fn = t.fn ∧ s.scalars = t.scalars ∧ s.arrays = t.arrays
+  | _, _ => False
+
+theorem StaticEq.rfl' (a : Node V) : StaticEq a a := by
+  cases a <;> simp [StaticEq]
+
+theorem StaticEq.trans {a b c : Node V} (h1 : StaticEq a b) (h2 : StaticEq b c) : StaticEq a c := by
+  cases a <;> cases b <;> cases c <;> simp_all [StaticEq]
+
+theorem StaticEq.symm {a b : Node V} (h1 : StaticEq a b) : StaticEq b a := by
+  cases a <;> cases b <;> simp_all [StaticEq]
+
+theorem StaticEq.struct_left {a : Node V} {t : SNode V} (h : StaticEq a (.struct t)) :
+    ∃ s, a = .struct s ∧ s.fn = t.fn ∧ s.scalars = t.scalars ∧ s.arrays = t.arrays ∧ s.deps = t.deps := by
+  cases a with
+  | param x v => simp [StaticEq] at h
+  | struct s =>
+    simp only [StaticEq] at h
+    exact ⟨s, rfl, h.1, h.2.1, h.2.2, by simp [SNode.deps, h.2.1, h.2.2]⟩
+
+theorem StaticEq.struct_right {a : Node V} {t : SNode V} (h : StaticEq (.struct t) a) :
+    ∃ s, a = .struct s ∧ s.fn = t.fn ∧ s.scalars = t.scalars ∧ s.arrays = t.arrays ∧ s.deps = t.deps := by
+  have := StaticEq.struct_left h.symm
+  exact this
+
+theorem StaticEq.param_left {a : Node V} {x : V} {v : Nat} (h : StaticEq a (.param x v)) : a = .param x v := by
+  cases a with
+  | param y w => simp [StaticEq] at h; simp [h]
+  | struct s => simp [StaticEq] at h
+
+def SameStatic (g' g : Graph V) : Prop := ∀ j, StaticEq (g' j) (g j)
+
+theorem SameStatic.refl (g : Graph V) : SameStatic g g := fun _ => StaticEq.rfl' _
+theorem SameStatic.trans {a b c : Graph V} (h1 : SameStatic a b) (h2 : SameStatic b c) : SameStatic a c :=
+  fun j => (h1 j).trans (h2 j)
+theorem SameStatic.symm {a b : Graph V} (h1 : SameStatic a b) : SameStatic b a :=
+  fun j => (h1 j).symm
+
+theorem WF.of_static {g g' : Graph V} (h : WF g) (hs : SameStatic g' g) : WF g' := by
+  intro i s hi d hd
+  have h1 := hs i
+  rw [hi] at h1
+  obtain ⟨t, ht, -, -, -, hdeps⟩ := StaticEq.struct_right h1
+  exact h i t ht d (hdeps ▸ hd)
+
+theorem executed_deps (s : SNode V) (g1 : Graph V) (vals : List V) : (s.executed g1 vals).deps = s.deps := rfl
+
+/-! ### evaluation never touches parameters, processors or wiring (I3, static part) -/
+
+theorem pull_static (ev : Graph V → Nat → Graph V × Log)
+    (hev : ∀ g d, SameStatic (ev g d).1 g) (g : Graph V) (ds : List Nat) :
+    SameStatic (pull ev g ds).1 g := by
+  induction ds generalizing g with
+  | nil => exact SameStatic.refl g
+  | cons d ds ih =>
+    simp only [pull]
+    exact (ih _).trans (hev g d)
+
+theorem eval_static (f : Nat) (g : Graph V) (i : Nat) : SameStatic (eval f g i).1 g := by
+  induction f generalizing g i with
+  | zero => exact SameStatic.refl g
+  | succ f ih =>
+    simp only [eval]
+    split
+    · exact SameStatic.refl g
+    · rename_i s hs
+      split
+      · intro j
+        dsimp only
+        have hp := pull_static (fun g d => eval f g d) (fun g d => ih g d) g s.deps
+        by_cases hj : j = i
+        · subst hj
+          simp only [Graph.set_same, hs]
+          simp [StaticEq, SNode.executed]
+        · rw [Graph.set_ne _ _ hj]
+          exact hp j
+      · exact SameStatic.refl g
+
+/-! ### `mismatch` -/
+
+/-- pointwise relation between two lists of the same length (core has no `List.Forall₂`) -/
+inductive All2 {α β : Type} (R : α → β → Prop) : List α → List β → Prop
+  | nil : All2 R [] []
+  | cons {a b l₁ l₂} : R a b → All2 R l₁ l₂ → All2 R (a :: l₁) (b :: l₂)
+
+theorem All2.length_eq {α β : Type} {R : α → β → Prop} {l₁ : List α} {l₂ : List β} (h : All2 R l₁ l₂) :
+    l₁.length = l₂.length := by
+  induction h with
+  | nil => rfl
+  | cons _ _ ih => simp [ih]
+
+theorem All2.imp {α β : Type} {R S : α → β → Prop} {l₁ : List α} {l₂ : List β} (h : All2 R l₁ l₂)
+    (hi : ∀ a b, a ∈ l₁ → R a b → S a b) : All2 S l₁ l₂ := by
+  induction h with
+  | nil => exact .nil
+  | cons hr _ ih =>
+    exact .cons (hi _ _ (List.mem_cons_self ..) hr) (ih (fun a b ha => hi a b (List.mem_cons_of_mem _ ha)))
+
+theorem All2.map_right {α β : Type} {R : α → β → Prop} (f : α → β) (l : List α) (h : ∀ a ∈ l, R a (f a)) :
+    All2 R l (l.map f) := by
+  induction l with
+  | nil => exact .nil
+  | cons a l ih =>
+    exact .cons (h a (List.mem_cons_self ..)) (ih (fun b hb => h b (List.mem_cons_of_mem _ hb)))
+
+theorem mismatch_congr (g g' : Graph V) (od od' : Nat → Bool) (ds rv : List Nat)
+    (h : ∀ d ∈ ds, ver g d = ver g' d ∧ od d = od' d) :
+    mismatch g od ds rv = mismatch g' od' ds rv := by
+  induction ds generalizing rv with
+  | nil => simp [mismatch]
+  | cons d ds ih =>
+    cases rv with
+    | nil => simp [mismatch]
+    | cons r rs =>
+      simp only [mismatch]
+      rw [ih rs (fun d hd => h d (List.mem_cons_of_mem _ hd)), (h d (List.mem_cons_self ..)).1,
+        (h d (List.mem_cons_self ..)).2]
+
+theorem mismatch_true_of_mem (g : Graph V) (od : Nat → Bool) (ds rv : List Nat) (d : Nat)
+    (hd : d ∈ ds) (hod : od d = true) : mismatch g od ds rv = true := by
+  induction ds generalizing rv with
+  | nil => simp at hd
+  | cons e ds ih =>
+    cases rv with
+    | nil => simp [mismatch]
+    | cons r rs =>
+      simp only [mismatch]
+      rcases List.mem_cons.1 hd with rfl | h
+      · simp [hod]
+      · simp [ih rs h]
+
+theorem mismatch_true_of_forall₂ (g : Graph V) (od : Nat → Bool) (Q : Nat → Nat → Prop) (ds rv : List Nat)
+    (hq : All2 Q ds rv) (d : Nat) (hd : d ∈ ds) (hne : ∀ r, Q d r → ver g d ≠ r) :
+    mismatch g od ds rv = true := by
+  induction hq with
+  | nil => simp at hd
+  | cons hqr _ ih =>
+    simp only [mismatch]
+    rcases List.mem_cons.1 hd with rfl | h
+    · simp [hne _ hqr]
+    · simp [ih h]
+
+/-- no mismatch: the remembered list covers all dependencies, positionwise equal and processed -/
+theorem mismatch_false_forall₂ (g : Graph V) (od : Nat → Bool) (ds rv : List Nat)
+    (h : mismatch g od ds rv = false) (hlen : ds.length = rv.length) :
+    All2 (fun d r => ver g d = r ∧ od d = false) ds rv := by
+  induction ds generalizing rv with
+  | nil => cases rv with
+    | nil => exact .nil
+    | cons => simp at hlen
+  | cons d ds ih =>
+    cases rv with
+    | nil => simp at hlen
+    | cons r rs =>
+      simp only [mismatch, Bool.or_eq_false_iff, bne_eq_false_iff_eq] at h
+      exact .cons ⟨h.1.1, h.1.2⟩ (ih rs h.2 (by simpa using hlen))
+
+theorem mismatch_false_mem (g : Graph V) (od : Nat → Bool) (ds rv : List Nat)
+    (h : mismatch g od ds rv = false) (d : Nat) (hd : d ∈ ds) : od d = false := by
+  cases hod : od d with
+  | false => rfl
+  | true => rw [mismatch_true_of_mem g od ds rv d hd hod] at h; cases h
+
+theorem mismatch_map_ver (g : Graph V) (od : Nat → Bool) (ds : List Nat)
+    (h : ∀ d ∈ ds, od d = false) : mismatch g od ds (ds.map (ver g)) = false := by
+  induction ds with
+  | nil => simp [mismatch]
+  | cons d ds ih =>
+    simp only [List.map_cons, mismatch]
+    simp [h d (List.mem_cons_self ..), ih (fun d hd => h d (List.mem_cons_of_mem _ hd))]
+
+/-! ### fuel independence under `WF` -/
+
+theorem outdated_fuel (g : Graph V) (hwf : WF g) (f1 f2 i : Nat) (h1 : i < f1) (h2 : i < f2) :
+    outdated f1 g i = outdated f2 g i := by
+  induction f1 generalizing f2 i with
+  | zero => omega
+  | succ f1 ih =>
+    cases f2 with
+    | zero => omega
+    | succ f2 =>
+      simp only [outdated]
+      split
+      · rfl
+      · rename_i s hs
+        split
+        · rfl
+        · congr 1
+          apply mismatch_congr
+          intro d hd
+          have := hwf i s hs d hd
+          exact ⟨rfl, ih f2 d (by omega) (by omega)⟩
+
+theorem evalSpec_fuel (g : Graph V) (hwf : WF g) (f1 f2 i : Nat) (h1 : i < f1) (h2 : i < f2) :
+    evalSpec f1 g i = evalSpec f2 g i := by
+  induction f1 generalizing f2 i with
+  | zero => omega
+  | succ f1 ih =>
+    cases f2 with
+    | zero => omega
+    | succ f2 =>
+      simp only [evalSpec]
+      split
+      · rfl
+      · rename_i s hs
+        congr 1
+        apply List.map_congr_left
+        intro d hd
+        have := hwf i s hs d hd
+        exact ih f2 d (by omega) (by omega)
+
+theorem pull_congr (ev ev' : Graph V → Nat → Graph V × Log) (g : Graph V) (ds : List Nat)
+    (hst : ∀ g d, SameStatic (ev g d).1 g)
+    (h : ∀ g', SameStatic g' g → ∀ d ∈ ds, ev g' d = ev' g' d) :
+    pull ev g ds = pull ev' g ds := by
+  induction ds generalizing g with
+  | nil => rfl
+  | cons d ds ih =>
+    simp only [pull]
+    have h0 := h g (SameStatic.refl g) d (List.mem_cons_self ..)
+    rw [← h0]
+    rw [ih (ev g d).1 (fun g' hg' e he => h g' (hg'.trans (hst g d)) e (List.mem_cons_of_mem _ he))]
+
+theorem eval_fuel (g : Graph V) (hwf : WF g) (f1 f2 i : Nat) (h1 : i < f1) (h2 : i < f2) :
+    eval f1 g i = eval f2 g i := by
+  induction f1 generalizing f2 i g with
+  | zero => omega
+  | succ f1 ih =>
+    cases f2 with
+    | zero => omega
+    | succ f2 =>
+      simp only [eval]
+      split
+      · rfl
+      · rename_i s hs
+        rw [outdated_fuel g hwf (f1+1) (f2+1) i h1 h2]
+        have hp : pull (fun g d => eval f1 g d) g s.deps = pull (fun g d => eval f2 g d) g s.deps := by
+          apply pull_congr
+          · intro g d; exact eval_static f1 g d
+          · intro g' hg' d hd
+            have := hwf i s hs d hd
+            exact ih g' (hwf.of_static hg') f2 d (by omega) (by omega)
+        rw [hp]
+
+/-! ### fuel-free unfolding equations -/
+
+theorem Outdated_eq (g : Graph V) (hwf : WF g) (i : Nat) :
+    Outdated g i = match g i with
+      | .param _ _ => false
+      | .struct s => match s.remembered with
+        | none => true
+        | some rv => s.flag || mismatch g (Outdated g) s.deps rv := by
+  cases hs : g i with
+  | param x v => simp [Outdated, outdated, hs]
+  | struct s =>
+    cases hr : s.remembered with
+    | none => simp [Outdated, outdated, hs, hr]
+    | some rv =>
+      simp only [Outdated, outdated, hs, hr]
+      congr 1
+      apply mismatch_congr
+      intro d hd
+      have := hwf i s hs d hd
+      exact ⟨rfl, outdated_fuel g hwf _ _ d (by omega) (by omega)⟩
+
+theorem Spec_eq (g : Graph V) (hwf : WF g) (i : Nat) :
+    Spec g i = match g i with
+      | .param x _ => x
+      | .struct s => s.fn s.scalars s.arrays (s.deps.map (Spec g)) := by
+  cases hs : g i with
+  | param x v => simp [Spec, evalSpec, hs]
+  | struct s =>
+    simp only [Spec, evalSpec, hs]
+    congr 1
+    apply List.map_congr_left
+    intro d hd
+    have := hwf i s hs d hd
+    exact evalSpec_fuel g hwf _ _ d (by omega) (by omega)
+
+theorem Eval_eq (g : Graph V) (hwf : WF g) (i : Nat) :
+    Eval g i = match g i with
+      | .param _ _ => (g, [])
+      | .struct s =>
+        if Outdated g i then
+          let r := pull Eval g s.deps
+          (r.1.set i (.struct (s.executed r.1 r.2.1)), r.2.2 ++ [(i, s.version + 1)])
+        else (g, []) := by
+  cases hs : g i with
+  | param x v => simp [Eval, eval, hs]
+  | struct s =>
+    have hp : pull (fun g d => eval i g d) g s.deps = pull Eval g s.deps := by
+      apply pull_congr
+      · intro g d; exact eval_static i g d
+      · intro g' hg' d hd
+        have := hwf i s hs d hd
+        exact eval_fuel g' (hwf.of_static hg') _ _ d (by omega) (by omega)
+    simp only [Eval, eval, hs]
+    rw [hp]
+    rfl
+
+theorem Eval_static (g : Graph V) (i : Nat) : SameStatic (Eval g i).1 g := eval_static _ g i
+
 end PolyVerif.Nodes
